@@ -66,7 +66,11 @@ func (o *CandidateNode) UnmarshalJSON(data []byte) error {
 
 			childKey := o.CreateChild()
 			childKey.IsMapKey = true
-			childKey.Value = tok.(string)
+			keyString, isString := tok.(string)
+			if !isString {
+				return fmt.Errorf("invalid JSON: object key must be a string, got %v", tok)
+			}
+			childKey.Value = keyString
 			childKey.Kind = ScalarNode
 			childKey.Tag = "!!str"
 
